@@ -112,7 +112,7 @@ func (c C20) Run(t *tape.Tape, opt core.RunOpt) (res core.Result) {
 	family := t.Draw(5)
 	nextSid, nextEv := 1, 1
 	newSub := func(topic string) *workload.SimSub {
-		sb := &workload.SimSub{ID: nextSid, Topic: topic, SelIndex: t.Draw(len(workload.SubSelections))}
+		sb := &workload.SimSub{ID: nextSid, Topic: topic, SelIndex: t.Draw(len(workload.SubSelections)), Alias: t.Bool(1, 3), Named: t.Bool(1, 3)}
 		nextSid++
 		if t.Bool(1, 3) {
 			sb.FailFrom = 1 + t.Draw(2)
@@ -475,6 +475,15 @@ func c20Analyse(res *core.Result, w *workload.SubWorld, s *sched.Sched, pre []in
 			}
 		}
 	}
+	nfail := 0
+	for _, cl := range all {
+		for _, sd := range cl.Sends {
+			if !sd.OK {
+				nfail++
+			}
+		}
+	}
+	res.Count("fault_subscriber_delivery_failed", nfail)
 	res.Count("probe_subscribe_inside_publish_gap", gapSub)
 	res.Count("probe_unsubscribe_removed_failed_subscriber_inside_gap", gapUnsubFailed)
 	res.Count("probe_two_publishers_failed_on_same_subscriber_before_cleanup", twoFailed)
